@@ -503,11 +503,6 @@ def real_cell(cell):
                 if not old_alive and not kids:
                     # the promoted master is a full master: a further upgrade must work (the listeners must still be inheritable)
                     v = v or ("chained-upgrade-failed", "USR2 to the promoted master did not produce a running third-generation master: %s" % s.log_text()[-300:])
-                for p in kids:
-                    try:
-                        os.kill(p, signal.SIGTERM)
-                    except OSError:
-                        pass
             if (old_alive or new_alive) and not v:
                 # whoever lives must be reachable
                 if not s.can_connect():
